@@ -104,6 +104,10 @@ class Scheduler(object):
             if t.state == "sleeping" and t.wake_at <= self.now + 1e-9:
                 t.state = "ready"
                 t.wake_at = None
+            elif t.state == "blocked" and getattr(t, "deadline", None) is not None and t.deadline <= self.now + 1e-9:
+                # a wait with a time limit has run out
+                t.state = "ready"
+                t.waiting_on = None
 
     def blocked(self):
         return [(t.name, t.waiting_on) for t in self.tasks if t.state == "blocked"]
@@ -241,10 +245,18 @@ class SLock(object):
             self.owner = "external"
             return True
         s.yield_point(("acquire",))
+        # a bounded wait ends when the virtual clock has passed its deadline (Scheduler.advance wakes the waiter)
+        deadline = None if timeout is None or timeout < 0 else s.now + timeout
         while self.owner is not None:
             if not blocking:
                 return False
+            if deadline is not None:
+                if s.now + 1e-9 >= deadline:
+                    me.deadline = None
+                    return False
+                me.deadline = deadline
             s.block(me, self)
+            me.deadline = None
         self.owner = me.name
         return True
 
